@@ -69,6 +69,16 @@ pub enum Op {
     Join { h: u8 },
     /// Rust only: `format!("{:?}")`
     Dbg { h: u8 },
+    /// (nested element types only) compare the list with a fresh copy of
+    /// itself whose elements are the SAME inner lists (clones of the handles):
+    /// `let c = List::from(h.to_vec()); (h == c, c == h)` /
+    /// `let r = []; for x in l { r.push(x); } l == r` and `r == l`
+    EqCopy { h: u8 },
+    /// (nested element types only) `h.contains(&h.get(0)?)`: search the list
+    /// for a handle of its own first element
+    ContainsOwn { h: u8 },
+    /// (nested element types only) `h.index(&h.get(len - 1)?)`
+    IndexOwn { h: u8 },
 }
 
 impl Op {
@@ -101,6 +111,9 @@ impl Op {
             Op::Iter { .. } => "iter",
             Op::Join { .. } => "join",
             Op::Dbg { .. } => "debug",
+            Op::EqCopy { .. } => "eq_copy",
+            Op::ContainsOwn { .. } => "contains_own",
+            Op::IndexOwn { .. } => "index_own",
         }
     }
 }
@@ -178,6 +191,27 @@ impl Step {
             }
             Op::Join { h } => self.wrap(format!("h{h}.join(\"{SEP}\")")),
             Op::Dbg { h } => format!("format!(\"{{:?}}\", h{h})"),
+            Op::EqCopy { h } => {
+                if r {
+                    format!("{{ let c = List::from(h{h}.to_vec()); (h{h} == c, c == h{h}) }}")
+                } else {
+                    format!("script{{ let r = []; for x in h{h} {{ r.push(x); }} (h{h} == r, r == h{h}) }}")
+                }
+            }
+            Op::ContainsOwn { h } => {
+                if r {
+                    format!("match h{h}.get(0) {{ Some(x) => h{h}.contains(&x), None => false }}")
+                } else {
+                    format!("script{{ match h{h}.get(0) {{ Some(x) => h{h}.contains(x), None => false }} }}")
+                }
+            }
+            Op::IndexOwn { h } => {
+                if r {
+                    format!("match h{h}.get(h{h}.len() - 1) {{ Some(x) => h{h}.index(&x), None => None }}  (None when empty)")
+                } else {
+                    format!("script{{ match h{h}.get(h{h}.len() - 1) {{ Some(x) => h{h}.index(x), None => None }} }}  (None when empty)")
+                }
+            }
         }
     }
     fn wrap(&self, e: String) -> String {
@@ -439,6 +473,19 @@ impl Model {
             // handles are the same vector (as `Vec<f64> == Vec<f64>` does)
             Op::Eq { a, b } => Res::Bool(self.seq_eq(&self.items(a), &self.items(b))),
             Op::ToVec { h } | Op::Iter { h } | Op::Dbg { h } => Res::Seq(self.items(h)),
+            Op::EqCopy { h } => {
+                let it = self.items(h);
+                let e = self.seq_eq(&it, &it) as u8;
+                Res::Seq(vec![e, e])
+            }
+            Op::ContainsOwn { h } => {
+                let it = self.items(h);
+                Res::Bool(it.first().is_some_and(|x| it.iter().any(|y| self.veq(*y, *x))))
+            }
+            Op::IndexOwn { h } => {
+                let it = self.items(h);
+                Res::OptNum(it.last().and_then(|x| it.iter().position(|y| self.veq(*y, *x))).map(|i| i as u64))
+            }
             Op::Join { h } => {
                 let v: Vec<&str> = self.items(h).iter().map(|v| STR[*v as usize]).collect();
                 Res::Text(v.join(SEP))
@@ -455,6 +502,9 @@ pub struct Alpha {
     /// number of element values: 2, 1 for the zero-sized type, 3 for floats
     pub nvals: u8,
     pub join: bool,
+    /// the elements are lists themselves: also enumerate the operations that
+    /// compare an element with a handle of the same inner list
+    pub nested: bool,
     /// false: `swap` uses j in {0, len-1, len, MAX} only
     pub swap_all_pairs: bool,
 }
@@ -530,6 +580,11 @@ pub fn alphabet(m: &Model, depth: usize, al: &Alpha) -> Vec<Step> {
         out.push(Step { op: Op::Dbg { h }, side: Side::Rust });
         if al.join {
             out.push(Step { op: Op::Join { h }, side: Side::Script });
+        }
+        if al.nested {
+            both(&mut out, Op::EqCopy { h });
+            both(&mut out, Op::ContainsOwn { h });
+            both(&mut out, Op::IndexOwn { h });
         }
     }
     for a in &live {
